@@ -260,6 +260,15 @@ def c13(ctx, rep):
     IpModel(ctx).check_salter(rep, "C13")
     from . import secret_flow
     secret_flow.check_anonymize_value(ctx, rep, "C13")
+    # word pseudonyms and AS replacements are keyed by salt + item (clauses of C10 / C11, re-run here)
+    from .report import Report
+    from . import checks_secret, checks_rx
+    for pid, fnc, keep in (("C10", checks_secret.c10, ("C10.pseudonym-keyed", "C10.memo-per-instance", "C10.memo-not-class-level", "C10.salt-field")), ("C11", checks_rx.c11, ("C11.keyed", "C11.map-instance-field", "C11.map-immutable", "C11.salt-field"))):
+        sub = Report(pid, quiet=True)
+        fnc(ctx, sub)
+        for o in sub.obligations:
+            if o["clause"] in keep:
+                rep.ob("C13." + o["clause"].split(".", 1)[1], o["construct"], o["ok"], o["detail"], o["where"], o.get("witness"), key="C13.%s|%s" % (o["clause"].split(".", 1)[1], o["construct"]))
     _positive_control(rep, "C13")
 
 
@@ -509,6 +518,8 @@ def _k3(ctx, rep, fns, av, k_counts):
             if not path.feasible():
                 continue
             for e, ls in walk_effects(path.effects):
+                if e.kind == "subscript" and e.maybe:
+                    continue  # conditionally evaluated: scanned with its short-circuit context via the enclosing term
                 for t in (e.a, e.b, e.c):
                     if isinstance(t, tuple):
                         terms.append((t, path, e.node))
@@ -642,7 +653,7 @@ def _k3_discharge(ctx, f, s, base, idx, atoms, av):
     # last character of the bit string / memo floor
     if idx in M.MINUS1 and base[0] == "param" and f.cls is not None and f.name in ("_anonymize_bits", "_deanonymize_bits"):
         return True, "the empty bit string always hits the memo ({'': ''} base case, C01)"
-    if idx in M.MINUS1 and base[0] in ("carried", "loopout", "param") and f.module.name == JS:
+    if idx in M.MINUS1 and (base[0] in ("carried", "loopout", "param") or (base[0] == "binop" and base[1] == "+")) and f.module.name == JS:
         return True, "last character of a non-empty accumulated string"
     # the AS-number map is read with keys of its own alternation
     if base == ("attr", SELF, "as_num_map"):
